@@ -29,12 +29,20 @@ RULE = ("full finite grid: steps {setup M2,M4,M6, verify M2,M4, add/remove pairi
         "{setup M2/M4/M6, verify M2/M4, add/remove pairing M2 inside a genuine encrypted session} x every error code with the expected / an absent State and every foreign State without / with a code "
         "x with / without the step's genuine fields x item orders x {one PDU, split PDUs, value fragments, small MTU | HTTP status x Content-Type}, answered by an independent accessory that repeats "
         "the scripted reply on EVERY attempt the library makes (virtual time); oracle: documented class (a library error for operations that merely run the procedure first), no normal return, "
-        "no session / pairing left behind, no later request sent as if the procedure had succeeded; non-trivial = distinct cell")
+        "no session / pairing left behind, no later request sent as if the procedure had succeeded; non-trivial = distinct cell. Concurrent lifecycle (streams ble-conc / ip-conc / coap-conc): the same "
+        "entry points (BlePairing / IpPairing / CoAPPairing operations, _async_pair_verify, do_pair_verify / connect, start / finish pairing on the three transports) against a SLOW scripted accessory "
+        "(reply latency, slow link tear-down, virtual time) while ANOTHER task acts on the same pairing during the wait for the first / the scripted step's reply - action {shutdown(), close(), "
+        "close_after_operation(), link drop / reset (reconnect possible or not), the caller's cancellation, a new advertisement / zeroconf record, a second add / remove / list pairing or "
+        "get_characteristics call} x schedule {action before / at the instant of / after the reply; link down before / at / after the reply; everything immediate} + random schedules; oracle: a call "
+        "whose scripted error / wrong-step reply was handed to the library by the transport never returns normally (None / True / data), never hangs, leaves no session, sends nothing further as if verified; "
+        "attribution of a delivered reply to a caller by the harness's own bookkeeping (identifier in the request, order of events at the accessory)")
 TRUSTED = ["reference accessory (harness/refacc.py: cryptography + RFC 5054 formulas) used to reach M4/M6 and verify-M4 with genuine earlier messages"]
 ASSUMPTIONS = ["'other reply fields' = every subset of the fields the protocol defines for that reply, plus items of types the step does not expect (RetryDelay, Certificate) placed in front of the Error item",
                "pair-setup steps M4/M6 are reached with a stub SRP client (SRP itself is C02/C03): handle_state_step runs before any SRP value is used; a sample of the transport-level pair-setup cells uses the real SRP client against harness/refacc.SrpServer",
                "transport level: the bleak client (GATT reads / writes) and aiocoap's Context are replaced, the clock is virtual; for an operation that merely runs pair-verify first (BLE public operations, CoAP connect() and CoAPPairing operations) the property is read as: fails with a library error, never returns normally, no session, no further request sent as if verified - the documented class is demanded of the procedure's own driver",
-               "the scripted accessory is persistent: it gives the scripted reply every time the step is reached; an accessory that answers an error once and a genuine reply on a later attempt is not judged (whether a retry may succeed is not the property's business)"]
+               "the scripted accessory is persistent: it gives the scripted reply every time the step is reached; an accessory that answers an error once and a genuine reply on a later attempt is not judged (whether a retry may succeed is not the property's business)",
+               "concurrent lifecycle: 'the accessory answered the request' is read as: the transport handed the complete scripted reply to the library for that call (the last GATT read of it returned / the bytes were accepted by the open TCP transport / the CoAP response future was resolved). A call whose reply never arrived because shutdown() / close() / a link drop / the cancellation won the race is not judged (on the unchanged library BlePairing operations then return None once _shutdown is set, or fail with BleakError - neither is this property's business). For a call that did receive the error reply the demand is the property's core: it never returns normally; a library error of ANY class is accepted (e.g. AccessoryDisconnectedError when the link went away right after the reply), CancelledError is accepted as the outcome of a cancellation, and when the application itself tears the link down underneath the call (shutdown / close / close_after_operation / link drop / cancel) a non-library exception class is recorded in the notes but not reported (observed on the unchanged library: IpPairing.add_pairing / remove_pairing whose error reply travels with an HTTP 4xx status raise AttributeError from post_tlv's self.transport.close() when close() / shutdown() of another task runs between the reply's arrival and the waiting task's resumption); with a second operation or a new advertisement (nothing is torn down) a non-library exception IS reported. The second operation is judged only where the property speaks about it: add / remove pairing for the pairings step, any operation for the pair-verify steps (it cannot have a session); list_pairings replies are not the property's business",
+               "BLE value-fragment envelope: in _pairing_char_write a pair-setup / pair-verify reply that carries a FragmentLast (or FragmentData) item NEXT TO State / Error items - e.g. [State=M4, Error=0x02, FragmentLast=''] - is taken for a fragment envelope, the reassembled (empty) buffer decodes to {} and the Error item is lost. FragmentData / FragmentLast (TLV types 12 / 13) are the transport's fragmentation envelope, not fields of a pairing reply; a conformant accessory never mixes them with reply items, so such a reply lies outside 'whichever other fields the reply does or does not carry' and is neither generated nor reported here (the 'other fields' are the protocol's reply fields and unexpected reply items such as RetryDelay / Certificate). Properly fragmented replies (the error reply split over FragmentData... FragmentLast envelopes) ARE exercised by the ble stream (vfrag)"]
 EXPLANATION = "Lean theorems C04_* over handle_state_step/error_handler/expectation lists (tables regenerated from source) for arbitrary replies; exhaustive differential grid on the real generators"
 
 CODES = [None, b"\x01", b"\x02", b"\x03", b"\x04", b"\x05", b"\x06", b"\x07", b"\x00", b"\x08", b"\xff", b"\x02\x00", b""]
@@ -215,6 +223,7 @@ def run(ctx: Ctx, driver: Driver):
     ble_transport_grid(ctx, rng)
     coap_transport_grid(ctx, rng)
     ip_transport_grid(ctx, rng)
+    live_grid(ctx, rng)
 
 
 def resume_grid(ctx, rng):
@@ -1418,7 +1427,738 @@ def ip_transport_grid(ctx: Ctx, rng):
                      "SecureHomeKitConnection._connect_once, the connector task and IpPairing's operations over harness/simnet against an independent accessory that repeats the scripted reply on every attempt")
 
 
+# =====================================================================================================================
+# concurrent lifecycle (streams ble-conc / ip-conc / coap-conc): the same scripted accessory, but SLOW - it takes
+# `reply_delay` virtual seconds to answer a request - and, while the operation is waiting for the reply of the scripted
+# step (or of its first request), ANOTHER task of the application acts on the same pairing: shutdown(), close(),
+# close_after_operation(), a second operation, a new advertisement / zeroconf record (the reconnect trigger), the caller's
+# own cancellation, or the link drops.  Tearing the link down takes `teardown` seconds (a radio does not disconnect at
+# once), so the accessory's reply may still be read after the lifecycle action has begun.
+# Oracle (the property's own words): an operation whose scripted reply (error code / foreign step number) was HANDED TO
+# THE LIBRARY by the transport never returns normally - whatever else was going on.  Which caller a delivered reply
+# belongs to is decided by the harness's own bookkeeping (the identifier inside the add/remove request, or the order of
+# events seen by the accessory), never by the library's state.  A reply that was never delivered (the action won the
+# race) is not judged.
+# =====================================================================================================================
+LIVE_TEARDOWN = ("shutdown", "close", "close_after_operation", "link_drop", "link_reset", "cancel")
+_STEP_REQ = {"setupM2": ("setup", b"\x01"), "setupM4": ("setup", b"\x03"), "setupM6": ("setup", b"\x05"), "verifyM2": ("verify", b"\x01"),
+             "verifyM4": ("verify", b"\x03"), "pairingsM2": ("pairings", None)}
+SECOND_ID = "second-ctl"
+
+
+class _Live:
+    """bookkeeping of one concurrent cell, shared by the scripted accessory and the harness"""
+
+    def __init__(self, case, loop):
+        self.conc = case["conc"]
+        self.loop = loop
+        self.reply_delay = float(self.conc.get("reply_delay", 0.0))
+        self.teardown = float(self.conc.get("teardown", 0.0))
+        self.fired = False  # the trigger request has been seen
+        self.acted = False  # the lifecycle action has been started
+        self.late = False  # ... after the operation had ended already
+        self.a_done = False
+        self.b_started = False
+        self.delivered = {"A": 0, "B": 0, "?": 0}
+        self.start_action = None
+        self.handles = []
+        self.side = None
+        self.transport = None
+
+    def later(self, delay, fn, *args):
+        h = self.loop.call_later(delay, fn, *args)
+        self.handles.append(h)
+        return h
+
+    def request_complete(self, scripted):
+        """the accessory has received a complete request"""
+        if self.fired or self.start_action is None:
+            return
+        if scripted or self.conc.get("at") == "first":
+            self.fired = True
+            self.later(float(self.conc.get("action_delay", 0.0)), self._act)
+
+    def _act(self):
+        self.acted = True
+        self.start_action()
+
+    def owner(self, ident=None):
+        """the caller a request seen by the accessory belongs to: by the identifier it names, else by the order of events"""
+        if ident is not None:
+            return "B" if bytes(ident) == SECOND_ID.encode() else "A"
+        if not self.b_started:
+            return "A"
+        if self.a_done:
+            return "B"
+        return "?"
+
+    def cancel_timers(self):
+        for h in self.handles:
+            h.cancel()
+
+
+def _task_outcome(t):
+    if t is None:
+        return None
+    if not t.done():
+        return "timeout"
+    if t.cancelled():
+        return "cancelled"
+    e = t.exception()
+    if e is None:
+        r = t.result()
+        return "ok " + (repr(r) if isinstance(r, (bool, type(None))) else type(r).__name__ + (f"[{len(r)}]" if isinstance(r, (list, dict)) else ""))
+    if isinstance(e, E.HomeKitException):
+        return "err " + type(e).__name__
+    if isinstance(e, _Runaway):
+        return "runaway"
+    return "exc " + type(e).__name__
+
+
+async def _settle(live, inner):
+    """wait (virtual time) for the operation, then for whatever the lifecycle action started"""
+    await asyncio.wait({inner}, timeout=OP_TIMEOUT)
+    live.a_done = live.a_done or inner.done()
+    hung = not inner.done()
+    if hung:
+        inner.cancel()
+    if live.side is not None:
+        await asyncio.wait({live.side}, timeout=OP_TIMEOUT)
+        if not live.side.done():
+            live.side.cancel()
+    out = "timeout" if hung else _task_outcome(inner)
+    return out, (_task_outcome(live.side) if live.side is not None else None)
+
+
+def _judge_live(case, obs):
+    step = case.get("step")
+    if step is None:
+        return []
+    state, code = _opt(case["state"]), _opt(case["code"])
+    want = expected_outcome(STEP_STATE[step], state, code, kind="pairing")
+    if want is None:
+        return []
+    conc = case["conc"]
+    reply = "[" + ", ".join(([f"State={case['state']}"] if state is not None else []) + ([f"Error={case['code']}"] if code is not None else [])) + (", + the step's genuine fields" if case.get("fields") else "") + "]"
+    what = "a foreign step number" if (state is not None and state != STEP_STATE[step]) else "an error code"
+    kind = "wrong-state" if what.startswith("a foreign") else "error-code"
+    sched = (f"the accessory takes {conc.get('reply_delay', 0)} s to answer; {conc.get('action_delay', 0)} s after the {'first request' if conc.get('at') == 'first' else step + ' request'} arrived "
+             f"another task does `{conc['action']}` (tearing the link down takes {conc.get('teardown', 0)} s)")
+    bad = []
+    for who, out in (("A", obs["out"]), ("B", obs.get("out_b"))):
+        n = obs["delivered"].get(who, 0)
+        if out is None or not n:
+            continue  # nothing the accessory said reached this caller: the property makes no claim
+        if who == "B" and step == "pairingsM2" and conc["action"][7:] not in ("add_pairing", "remove_pairing"):
+            continue  # the property speaks of add- and remove-pairing requests only (a list-pairings reply is not its business)
+        name = case["op"] if who == "A" else conc["action"][7:] + " (the second operation)"
+        where = f"{case['stream']} {name}: accessory answers {step} with {reply}; {sched}; {n} such repl{'y was' if n == 1 else 'ies were'} handed to the library for this call"
+        if out in ("timeout", "runaway") or obs.get("runaway"):
+            bad.append(("no-failure", f"{where}: the call neither failed nor ended ({out}, {obs['requests']} requests)"))
+        elif out.startswith("ok"):
+            bad.append(("completed/" + kind, f"{where}: the call returned normally ({out[3:][:60]}) - reported as done although the accessory's answer was {what}; it must fail with a library error"))
+        elif out.startswith("exc") and conc["action"] not in LIVE_TEARDOWN:
+            # (when the application itself tears the link down underneath the call, the CLASS of the failure is not judged - see ASSUMPTIONS)
+            bad.append((out.split()[1], f"{where}: raised non-library {out.split()[1]}; it must fail with a library error"))
+    if obs.get("keys"):
+        bad.append(("keys-installed", f"{case['stream']} {case['op']}: accessory answers {step} with {reply}; {sched}: session keys / pairing are in place afterwards ({obs['keys']}), outcome {obs['out']}"))
+    if obs.get("after"):
+        bad.append(("carried-on", f"{case['stream']} {case['op']}: accessory answers {step} with {reply}; {sched}: afterwards the controller went on to send {obs['after'][:4]} as if the procedure had succeeded (outcome {obs['out']})"))
+    return bad
+
+
+# ----------------------------------------------------------------------------------------------------- BLE, concurrent
+class _BleLiveAcc(_BleAcc):
+    def __init__(self, case, rb, names, live):
+        super().__init__(case, rb, names)
+        self.live = live
+        self.fresh = {}  # iid -> the response has not been read yet (the accessory is still thinking)
+        self.owner_of = {}  # iid -> caller of the scripted reply that is pending there
+        self.last_ident = None
+
+    def on_pairings(self, req):
+        self.last_ident = req.get(1)
+        return super().on_pairings(req)
+
+    def gatt_write(self, h, data):
+        n_log, n_scr = len(self.log), len(self.scripted_at)
+        self.last_ident = None
+        super().gatt_write(h, data)
+        if len(self.log) > n_log:
+            self.fresh[h.iid] = True
+            scripted = len(self.scripted_at) > n_scr
+            if scripted:
+                self.owner_of[h.iid] = self.live.owner(self.last_ident if h.name == "pairings" else None)
+            self.live.request_complete(scripted)
+
+    def gatt_read(self, h):
+        data = super().gatt_read(h)
+        if h.iid in self.owner_of and not self.pending.get(h.iid):
+            # the last PDU of the scripted reply is handed to the library
+            self.live.delivered[self.owner_of.pop(h.iid)] += 1
+        return data
+
+    def drop_link(self):
+        super().drop_link()
+        self.partial.clear()
+        self.pending.clear()
+        self.vq.clear()
+        self.fresh.clear()
+        self.owner_of.clear()
+
+
+class _LiveRadio(_Radio):
+    """a radio with latency: the accessory's answer becomes readable `reply_delay` after the request, disconnecting takes
+    `teardown`; reads / writes on a link that is down fail the way bleak fails them"""
+
+    def __init__(self, acc, mtu, live):
+        super().__init__(acc, mtu)
+        self.live = live
+        self.on_disconnect = None
+
+    def _check(self):
+        from bleak.exc import BleakError
+        if not self.is_connected:
+            raise BleakError("Not connected")
+
+    async def write_gatt_char(self, handle, data, response=None):
+        self._check()
+        self.acc.gatt_write(handle, bytes(data))
+
+    async def read_gatt_char(self, handle):
+        self._check()
+        if self.acc.fresh.pop(handle.iid, False) and self.live.reply_delay:
+            await asyncio.sleep(self.live.reply_delay)
+            self._check()
+        return self.acc.gatt_read(handle)
+
+    def drop(self, report):
+        if not self.is_connected:
+            return
+        self.is_connected = False
+        self.acc.drop_link()
+        if report and self.on_disconnect is not None:
+            self.on_disconnect(self)
+
+    async def disconnect(self):
+        if not self.is_connected:
+            return
+        if self.live.teardown:
+            await asyncio.sleep(self.live.teardown)
+        self.drop(report=False)
+
+
+BLE_SECOND = {
+    "add_pairing": lambda p, k: p.add_pairing(SECOND_ID, k, "User"),
+    "remove_pairing": lambda p, k: p.remove_pairing(SECOND_ID),
+    "list_pairings": lambda p, k: p.list_pairings(),
+    "get_characteristics": lambda p, k: p.get_characteristics([(1, 21)]),
+}
+BLE_ACTIONS = ("shutdown", "close", "close_after_operation", "link_drop", "cancel", "redescribe", "second:add_pairing", "second:remove_pairing", "second:get_characteristics", "second:list_pairings")
+
+
+async def _ble_live_cell(case):
+    """one concurrent BLE cell, a pure function of the case dict"""
+    import random as _r
+    from types import SimpleNamespace
+    import bleak_retry_connector
+    import aiohomekit.controller.ble.discovery as bled
+    import aiohomekit.controller.ble.pairing as blep
+    from aiohomekit.characteristic_cache import CharacteristicCacheMemory
+    from aiohomekit.controller.ble.controller import BleController
+    from aiohomekit.controller.ble.manufacturer_data import HomeKitAdvertisement
+    from aiohomekit.model.categories import Categories
+    from aiohomekit.model.status_flags import StatusFlags
+    rng = _r.Random(case.get("seed", 0))
+    rb = lambda n: bytes(rng.randrange(256) for _ in range(n))  # noqa: E731
+    loop = asyncio.get_running_loop()
+    conc = case["conc"]
+    live = _Live(case, loop)
+    db = _ble_db()
+    acc = _BleLiveAcc(case, rb, db["names"], live)
+    radios = []
+
+    def new_radio(cb=None):
+        r = _LiveRadio(acc, case.get("mtu", 512), live)
+        r.on_disconnect = cb
+        radios.append(r)
+        return r
+
+    async def establish(device, name, disconnected_callback, **kw):
+        # the radio's connect(): the accessory is in range again after `connect_time` (or stays out of reach)
+        await asyncio.sleep(float(conc.get("connect_time", 0.3)))
+        if not conc.get("reconnect", True):
+            raise bleak_retry_connector.BleakNotFoundError("device not in range")
+        return new_radio(disconnected_callback)
+
+    controller = BleController(CharacteristicCacheMemory())
+    device = SimpleNamespace(address=_Radio.address, name="acc", details={})
+    op = case["op"]
+    obs = {"keys": None}
+    k = acc.ident.ios_ltpk.hex()
+
+    def advertisement(state_num):
+        return HomeKitAdvertisement(name="acc", id=acc.ident.acc_id.decode().lower(), status_flags=StatusFlags(0), config_num=1, category=Categories(5),
+                                    setup_hash=b"", address=_Radio.address, state_num=state_num)
+    stub = mock.patch.object(P, "SrpClient", FakeSrp) if case.get("srp", "stub") == "stub" else mock.patch.object(P, "SrpClient", P.SrpClient)
+    pairing = None
+    try:
+        with mock.patch.object(blep, "establish_connection", establish), mock.patch.object(bled, "establish_connection", establish), stub:
+            if op in ("start_pairing", "finish_pairing"):
+                from aiohomekit.controller.ble.discovery import BleDiscovery
+                desc = HomeKitAdvertisement(name="acc", id=acc.ident.acc_id.decode().lower(), status_flags=StatusFlags(1), config_num=1, category=Categories(5),
+                                            setup_hash=b"", address=_Radio.address, state_num=1)
+                disc = BleDiscovery(controller, device, desc, None)
+                disc.client = new_radio(disc._async_disconnected)
+                if op == "start_pairing":
+                    coro = disc.async_start_pairing("alias")
+                else:
+                    try:
+                        finish = await asyncio.wait_for(disc.async_start_pairing("alias"), OP_TIMEOUT)
+                    except _Runaway:
+                        raise
+                    except Exception as e:  # noqa: BLE001
+                        obs.update(out="scaffold " + type(e).__name__, out_b=None, delivered=dict(live.delivered), scripted=0, requests=acc.requests, runaway=acc.runaway, after=[], acted=False)
+                        return obs
+                    coro = finish(PIN)
+                own = ("setup", "features")
+            else:
+                pd = dict(acc.ident.pairing_data(connection="BLE"), AccessoryAddress=_Radio.address)
+                pairing = BlePairing(controller, pd, device=device, client=new_radio())
+                radios[0].on_disconnect = pairing._async_disconnected
+                pairing.restore_accessories_state(db["db"], 1, None, None)
+                own = ("pairings", "verify") if case.get("step") == "pairingsM2" else ("verify",)
+                coro = pairing._async_pair_verify() if op == "pair_verify" else BLE_PUBLIC[op](pairing, k)
+            inner = asyncio.ensure_future(coro)
+
+            def start_action():
+                kind = conc["action"]
+                live.late = inner.done()
+                if kind == "cancel":
+                    inner.cancel()
+                elif kind == "link_drop":
+                    radios[-1].drop(report=True)
+                elif pairing is None:
+                    return
+                elif kind == "redescribe":
+                    pairing._async_description_update(advertisement(int(conc.get("state_num", 7))))
+                elif kind.startswith("second:"):
+                    live.b_started = True
+                    live.side = asyncio.ensure_future(BLE_SECOND[kind[7:]](pairing, k))
+                else:
+                    live.side = asyncio.ensure_future({"shutdown": pairing.shutdown, "close": pairing.close, "close_after_operation": pairing.close_after_operation}[kind]())
+            live.start_action = start_action
+            inner.add_done_callback(lambda _t: setattr(live, "a_done", True))
+            out, out_b = await _settle(live, inner)
+            if "alias" in controller.pairings:
+                obs["keys"] = "controller.pairings holds the new pairing"
+            if pairing is not None and case.get("step") in ("verifyM2", "verifyM4") and pairing.is_connected:
+                obs["keys"] = "BlePairing.is_connected is True"
+    finally:
+        live.cancel_timers()
+    after = [] if (case.get("step") == "pairingsM2" and conc["action"].startswith("second:")) else _after(acc, own)
+    obs.update(out=out, out_b=out_b if conc["action"].startswith("second:") else None, side=out_b, delivered=dict(live.delivered), scripted=len(acc.scripted_at), requests=acc.requests,
+               runaway=acc.runaway, after=after, acted=live.acted, late=live.late)
+    return obs
+
+
+# ------------------------------------------------------------------------------------------------------ IP, concurrent
+class _IpLiveAcc(_IpAcc):
+    """_IpAcc that thinks for `reply_delay` before it answers a request"""
+
+    def __init__(self, case, rb, net, loop, live):
+        super().__init__(case, rb, net, loop)
+        self.live = live
+        self.fed = False
+
+    def handle(self, t, method, target, body):
+        if t.closing or t.closed:
+            return
+        ep = {"/pair-setup": "setup", "/pair-verify": "verify", "/pairings": "pairings"}.get(target)
+        req = refacc.untlv(body) if ep else {}
+        want_ep, want_state = _STEP_REQ.get(self.step, (None, None))
+        scripted = ep is not None and ep == want_ep and (want_state is None or req.get(6) == want_state) and (ep != "pairings" or bool(self.conns[t]["keys"]))
+        owner = self.live.owner(req.get(1) if ep == "pairings" else None)
+        self.live.transport = t
+        self.live.request_complete(scripted)
+        self.live.later(self.live.reply_delay, self._answer, t, method, target, body, owner)
+
+    def _answer(self, t, method, target, body, owner):
+        if t.closing or t.closed:
+            return
+        before = len(self.scripted_at)
+        self.fed = False
+        try:
+            _IpAcc.handle(self, t, method, target, body)
+        except _Runaway:
+            return t.peer_close()
+        if len(self.scripted_at) > before and self.fed:
+            self.live.delivered[owner] += 1
+
+    def send(self, t, body, ctype="application/pairing+tlv8", status=(200, "OK")):
+        self.fed = not (t.closed or t.closing)
+        super().send(t, body, ctype, status)
+
+
+IP_SECOND = {
+    "add_pairing": lambda p, k: p.add_pairing(SECOND_ID, k, "User"),
+    "remove_pairing": lambda p, k: p.remove_pairing(SECOND_ID),
+    "list_pairings": lambda p, k: p.list_pairings(),
+    "get_characteristics": lambda p, k: p.get_characteristics([(1, 21)]),
+}
+IP_ACTIONS = ("shutdown", "close", "link_drop", "link_reset", "cancel", "redescribe", "second:add_pairing", "second:remove_pairing", "second:get_characteristics", "second:list_pairings")
+
+
+def _ip_description(acc, case, state_num=1):
+    from aiohomekit.model.categories import Categories
+    from aiohomekit.model.feature_flags import FeatureFlags
+    from aiohomekit.model.status_flags import StatusFlags
+    from aiohomekit.zeroconf import HomeKitService
+    return HomeKitService(name="acc", id=acc.ident.acc_id.decode().lower(), model="m", feature_flags=FeatureFlags(case.get("ff", 0)), status_flags=StatusFlags(1),
+                          config_num=1, state_num=state_num, category=Categories(5), protocol_version="1.1", type="_hap._tcp.local.", address="10.0.0.1",
+                          addresses=["10.0.0.1"], port=80)
+
+
+async def _ip_live_cell(case):
+    """one concurrent IP cell, a pure function of the case dict"""
+    import random as _r
+    from types import SimpleNamespace
+    from harness import simnet
+    from aiohomekit.characteristic_cache import CharacteristicCacheMemory
+    rng = _r.Random(case.get("seed", 0))
+    rb = lambda n: bytes(rng.randrange(256) for _ in range(n))  # noqa: E731
+    loop = asyncio.get_running_loop()
+    conc = case["conc"]
+    live = _Live(case, loop)
+    net = simnet.Net(loop)
+    acc = _IpLiveAcc(case, rb, net, loop, live)
+    op = case["op"]
+    obs = {"keys": None}
+    stub = mock.patch.object(P, "SrpClient", FakeSrp) if case.get("srp", "stub") == "stub" else mock.patch.object(P, "SrpClient", P.SrpClient)
+    pd = acc.ident.pairing_data()
+    controller = SimpleNamespace(pairings={}, _char_cache=CharacteristicCacheMemory())
+    k = acc.ident.ios_ltpk.hex()
+    closer, pairing = None, None
+    out, out_b = "scaffold", None
+    with net.patched(), stub:
+        try:
+            if op.startswith("discovery."):
+                from aiohomekit.controller.ip.discovery import IpDiscovery
+                disc = IpDiscovery(controller, _ip_description(acc, case))
+                closer = disc.close
+                if op == "discovery.start_pairing":
+                    coro = disc.async_start_pairing("alias")
+                else:
+                    try:
+                        finish = await asyncio.wait_for(disc.async_start_pairing("alias"), OP_TIMEOUT)
+                    except Exception as e:  # noqa: BLE001
+                        obs.update(out="scaffold " + type(e).__name__, out_b=None, delivered=dict(live.delivered), scripted=0, requests=acc.requests, runaway=acc.runaway, after=[], acted=False)
+                        return obs
+                    coro = finish(PIN)
+            else:
+                from aiohomekit.controller.ip.pairing import IpPairing
+                pairing = IpPairing(controller, pd)
+                closer = pairing.close
+                pairing.restore_accessories_state(_ble_db()["db"], 1, None, None)
+                coro = IP_PUBLIC[op](pairing, k)
+            inner = asyncio.ensure_future(coro)
+
+            def start_action():
+                kind = conc["action"]
+                live.late = inner.done()
+                if kind == "cancel":
+                    inner.cancel()
+                elif kind in ("link_drop", "link_reset"):
+                    if live.transport is not None:
+                        (live.transport.peer_close if kind == "link_drop" else live.transport.peer_reset)()
+                elif pairing is None:
+                    return
+                elif kind == "redescribe":
+                    pairing._async_description_update(_ip_description(acc, case, int(conc.get("state_num", 7))))
+                elif kind.startswith("second:"):
+                    live.b_started = True
+                    live.side = asyncio.ensure_future(IP_SECOND[kind[7:]](pairing, k))
+                else:
+                    live.side = asyncio.ensure_future({"shutdown": pairing.shutdown, "close": pairing.close}[kind]())
+            live.start_action = start_action
+            inner.add_done_callback(lambda _t: setattr(live, "a_done", True))
+            out, out_b = await _settle(live, inner)
+            if "alias" in controller.pairings:
+                obs["keys"] = "controller.pairings holds the new pairing"
+                closer = controller.pairings["alias"].close
+            if pairing is not None and case.get("step") in ("verifyM2", "verifyM4") and pairing.is_connected:
+                obs["keys"] = "IpPairing.is_connected is True"
+        finally:
+            live.cancel_timers()
+            net.connect_outcomes = ["refused"] * 10000
+            if closer is not None:
+                try:
+                    await closer()
+                except Exception:  # noqa: BLE001
+                    pass
+    step = case.get("step") or ""
+    own = ("setup",) if step.startswith("setup") else (("pairings", "verify") if step == "pairingsM2" else ("verify",))
+    after = [] if (step == "pairingsM2" and conc["action"].startswith("second:")) else _after(acc, own)
+    obs.update(out=out, out_b=out_b if conc["action"].startswith("second:") else None, side=out_b, delivered=dict(live.delivered), scripted=len(acc.scripted_at), requests=acc.requests,
+               runaway=acc.runaway, after=after, acted=live.acted, late=live.late)
+    return obs
+
+
+# ---------------------------------------------------------------------------------------------------- CoAP, concurrent
+class _CoapLiveContext:
+    """stands in for aiocoap.Context; the response arrives `reply_delay` after the request (unless the requester gave up)"""
+
+    def __init__(self, acc, live):
+        self.acc, self.live, self.down = acc, live, False
+
+    def request(self, msg):
+        from types import SimpleNamespace
+        acc, live = self.acc, self.live
+        fut = live.loop.create_future()
+        n_scr = len(acc.scripted_at)
+        owner = live.owner()
+        resp = acc.respond(msg)
+        scripted = len(acc.scripted_at) > n_scr
+        live.request_complete(scripted)
+
+        def arrive():
+            if fut.done() or self.down:
+                return
+            fut.set_result(resp)
+            if scripted:
+                live.delivered[owner] += 1
+        live.later(live.reply_delay, arrive)
+        return SimpleNamespace(response=fut)
+
+    async def shutdown(self):
+        self.down = True
+
+
+COAP_SECOND = {
+    "list_pairings": lambda p: p.list_pairings(),
+    "remove_pairing": lambda p: p.remove_pairing(SECOND_ID),
+    "get_characteristics": lambda p: p.get_characteristics([(1, 21)]),
+}
+COAP_ACTIONS = ("shutdown", "close", "cancel", "redescribe", "second:list_pairings", "second:remove_pairing", "second:get_characteristics")
+
+
+async def _coap_live_cell(case):
+    """one concurrent CoAP cell, a pure function of the case dict"""
+    import random as _r
+    from types import SimpleNamespace
+    import aiohomekit.controller.coap.connection as coapc
+    from aiohomekit.characteristic_cache import CharacteristicCacheMemory
+    rng = _r.Random(case.get("seed", 0))
+    rb = lambda n: bytes(rng.randrange(256) for _ in range(n))  # noqa: E731
+    loop = asyncio.get_running_loop()
+    conc = case["conc"]
+    live = _Live(case, loop)
+    acc = _CoapAcc(case, rb)
+
+    class FakeContext:
+        @staticmethod
+        async def create_client_context(*a, **k):
+            return _CoapLiveContext(acc, live)
+
+        @staticmethod
+        async def create_server_context(*a, **k):
+            return _CoapLiveContext(acc, live)
+    op = case["op"]
+    obs = {"keys": None}
+    stub = mock.patch.object(P, "SrpClient", FakeSrp) if case.get("srp", "stub") == "stub" else mock.patch.object(P, "SrpClient", P.SrpClient)
+    pd = dict(acc.ident.pairing_data(hosts=("fd00::1",), port=5683, connection="CoAP"))
+    controller = SimpleNamespace(pairings={}, _char_cache=CharacteristicCacheMemory())
+    pairing, conn = None, None
+    try:
+        with mock.patch.object(coapc, "Context", FakeContext), stub:
+            if op.startswith("pairing."):
+                from aiohomekit.controller.coap.pairing import CoAPPairing
+                pairing = CoAPPairing(controller, pd)
+                pairing.restore_accessories_state(_ble_db()["db"], 1, None, None)
+                coro = COAP_PUBLIC[op](pairing)
+            else:
+                conn = coapc.CoAPHomeKitConnection(None, "fd00::1", 5683)
+                if op == "do_pair_setup":
+                    coro = conn.do_pair_setup(bool(case.get("with_auth")))
+                elif op == "do_pair_setup_finish":
+                    try:
+                        salt, srp_b = await asyncio.wait_for(conn.do_pair_setup(bool(case.get("with_auth"))), OP_TIMEOUT)
+                    except _Runaway:
+                        raise
+                    except Exception as e:  # noqa: BLE001
+                        obs.update(out="scaffold " + type(e).__name__, out_b=None, delivered=dict(live.delivered), scripted=0, requests=acc.requests, runaway=acc.runaway, after=[], acted=False)
+                        return obs
+                    coro = conn.do_pair_setup_finish(PIN, salt, srp_b)
+                elif op == "do_pair_verify":
+                    coro = conn.do_pair_verify(pd)
+                else:
+                    coro = conn.connect(pd)
+            inner = asyncio.ensure_future(coro)
+
+            def start_action():
+                kind = conc["action"]
+                live.late = inner.done()
+                if kind == "cancel":
+                    inner.cancel()
+                elif pairing is None:
+                    return
+                elif kind == "redescribe":
+                    pairing._async_description_update(_ip_description(acc, case, int(conc.get("state_num", 7))))
+                elif kind.startswith("second:"):
+                    live.b_started = True
+                    live.side = asyncio.ensure_future(COAP_SECOND[kind[7:]](pairing))
+                else:
+                    live.side = asyncio.ensure_future({"shutdown": pairing.shutdown, "close": pairing.close}[kind]())
+            live.start_action = start_action
+            inner.add_done_callback(lambda _t: setattr(live, "a_done", True))
+            out, out_b = await _settle(live, inner)
+            if pairing is not None and pairing.is_connected:
+                obs["keys"] = "CoAPPairing.is_connected is True"
+            if conn is not None and conn.is_connected:
+                obs["keys"] = "CoAPHomeKitConnection.is_connected is True (an encryption context is installed)"
+    finally:
+        live.cancel_timers()
+    own = ("setup",) if (case.get("step") or "").startswith("setup") else ("verify",)
+    obs.update(out=out, out_b=out_b if conc["action"].startswith("second:") else None, side=out_b, delivered=dict(live.delivered), scripted=len(acc.scripted_at), requests=acc.requests,
+               runaway=acc.runaway, after=_after(acc, own), acted=live.acted, late=live.late)
+    return obs
+
+
+LIVE_CELLS = {"ble-conc": _ble_live_cell, "ip-conc": _ip_live_cell, "coap-conc": _coap_live_cell}
+# (reply_delay, action_delay, teardown): the action begins and the reply is read while the link is still up | the link is down before the
+# reply | both at the same instant | the action at the instant of the reply | everything immediate | immediate action, slow teardown | action after the reply
+LIVE_SCHEDULES = [(1.0, 0.0, 5.0), (1.0, 0.5, 0.1), (1.0, 0.5, 0.5), (1.0, 1.0, 2.0), (0.0, 0.0, 0.0), (0.0, 0.0, 1.0), (1.0, 1.5, 0.0)]
+
+
+def _run_live(loop, case):
+    try:
+        obs = loop.run_until_complete(LIVE_CELLS[case["stream"]](case))
+    except _Runaway:
+        obs = {"out": "runaway", "out_b": None, "delivered": {"A": 1}, "scripted": 1, "requests": REQUEST_LIMIT, "runaway": True, "after": [], "keys": None}
+    pend = [t for t in asyncio.all_tasks(loop) if not t.done()]
+    for t in pend:
+        t.cancel()
+    if pend:
+        loop.run_until_complete(asyncio.gather(*pend, return_exceptions=True))
+    return obs
+
+
+def live_grid(ctx: Ctx, rng):
+    from harness import simnet
+    cases = []
+    light = {step: _cells(step, False, "light") for step in STEP_STATE}
+
+    def add(stream, op, step, action, sched, **kw):
+        shapes = light[step]
+        r, a, d = sched
+        conc = dict({"action": action, "at": "scripted", "reply_delay": r, "action_delay": a, "teardown": d}, **kw.pop("conc", {}))
+        cases.append(dict({"stream": stream, "op": op, "level": "op", "step": step, "seed": rng.randrange(1 << 30), "conc": conc}, **shapes[len(cases) % len(shapes)], **kw))
+    n_s = len(LIVE_SCHEDULES)
+    # ---- BLE
+    for op in BLE_PAIRINGS_OPS:
+        for action in BLE_ACTIONS:
+            for sched in LIVE_SCHEDULES:
+                add("ble-conc", op, "pairingsM2", action, sched)
+    for op in ["pair_verify"] + list(BLE_PUBLIC):
+        for step in ("verifyM2", "verifyM4"):
+            for action in BLE_ACTIONS:
+                add("ble-conc", op, step, action, LIVE_SCHEDULES[len(cases) % n_s])
+                if action in ("shutdown", "close"):
+                    add("ble-conc", op, step, action, LIVE_SCHEDULES[0])
+    for op, step in (("start_pairing", "setupM2"), ("finish_pairing", "setupM4"), ("finish_pairing", "setupM6")):
+        for action in ("cancel", "link_drop"):
+            for sched in LIVE_SCHEDULES[:4]:
+                add("ble-conc", op, step, action, sched)
+    # ---- IP
+    https = [None, [400, "application/pairing+tlv8"], [470, None], [200, "application/hap+json"]]
+    for op in IP_PAIRINGS_OPS:
+        for action in IP_ACTIONS:
+            for sched in LIVE_SCHEDULES[:5]:
+                add("ip-conc", op, "pairingsM2", action, sched, http=https[len(cases) % len(https)])
+    for op in IP_PUBLIC:
+        for step in ("verifyM2", "verifyM4"):
+            for action in IP_ACTIONS[:6] + IP_ACTIONS[6 + len(cases) % 4:][:1]:
+                add("ip-conc", op, step, action, LIVE_SCHEDULES[len(cases) % n_s], http=https[len(cases) % len(https)])
+                if action in ("shutdown", "close"):
+                    add("ip-conc", op, step, action, LIVE_SCHEDULES[0], http=https[len(cases) % len(https)])
+    for op, step in (("discovery.start_pairing", "setupM2"), ("discovery.finish_pairing", "setupM4"), ("discovery.finish_pairing", "setupM6")):
+        for action in ("cancel", "link_drop", "link_reset"):
+            for sched in LIVE_SCHEDULES[:3]:
+                add("ip-conc", op, step, action, sched, http=https[len(cases) % len(https)])
+    # ---- CoAP
+    for op in list(COAP_PUBLIC) + ["connect", "do_pair_verify"]:
+        for step in ("verifyM2", "verifyM4"):
+            for action in (COAP_ACTIONS if op.startswith("pairing.") else ("cancel",)):
+                add("coap-conc", op, step, action, LIVE_SCHEDULES[len(cases) % n_s])
+    for op, step in (("do_pair_setup", "setupM2"), ("do_pair_setup_finish", "setupM4"), ("do_pair_setup_finish", "setupM6")):
+        for sched in LIVE_SCHEDULES[:3]:
+            add("coap-conc", op, step, "cancel", sched)
+    # ---- random schedules / trigger points / reply shapes on top of the systematic part
+    grid = list(cases)
+    for _ in range(ctx.budget(250, 6000)):
+        c = dict(rng.choice(grid))
+        c.update(rng.choice(light[c["step"]]))
+        conc = dict(c["conc"], reply_delay=rng.choice([0.0, 0.25, 1.0, 3.0]), action_delay=rng.choice([0.0, 0.0, 0.25, 0.5, 1.0, 1.25, 2.0, 3.0, 4.0]),
+                    teardown=rng.choice([0.0, 0.25, 0.75, 1.0, 2.5, 6.0]))
+        if not c["op"].endswith("finish_pairing") and c["op"] != "do_pair_setup_finish":
+            conc["at"] = rng.choice(["scripted", "first"])
+        if c["stream"] == "ble-conc":
+            conc["reconnect"] = rng.random() < 0.7
+            c.update(pdu_split=rng.choice([0, 0, 3, 7]), mtu=rng.choice([512, 512, 64]))
+        c.update(conc=conc, seed=rng.randrange(1 << 30))
+        cases.append(c)
+    # the genuine control exchanges under the same latency (no scripted step: the operations must be able to succeed)
+    for stream, ops in (("ble-conc", BLE_PAIRINGS_OPS + ("get_characteristics",)), ("ip-conc", IP_PAIRINGS_OPS + ("pairing.get_characteristics",)), ("coap-conc", ("do_pair_verify",))):
+        for op in ops:
+            cases.append({"stream": stream, "op": op, "level": "op", "step": None, "seed": rng.randrange(1 << 30),
+                          "conc": {"action": "cancel", "at": "scripted", "reply_delay": 1.0, "action_delay": 0.0, "teardown": 0.0}})
+    loops = {}
+    n_delivered = 0
+    unjudged = {}
+    for case in cases:
+        loop = loops.get(case["stream"])
+        if loop is None:
+            loop = loops[case["stream"]] = simnet.VLoop()
+        asyncio.set_event_loop(loop)
+        obs = _run_live(loop, case)
+        conc = case["conc"]
+        ctx.evaluations += 1
+        ctx.nontrivial.add((case["stream"], case["op"], case.get("step"), case.get("state"), case.get("code"), conc["action"], conc.get("at"), conc["reply_delay"], conc["action_delay"],
+                            conc["teardown"], conc.get("reconnect"), case.get("pdu_split"), case.get("mtu"), str(case.get("http"))))
+        delivered = "delivered" if obs["delivered"].get("A") else "not-delivered"
+        n_delivered += bool(obs["delivered"].get("A"))
+        ctx.dist[f"{case['stream']}:{conc['action']}:{case.get('step') or 'genuine'}:{delivered}:{obs['out']}"] += 1
+        if obs.get("out_b") is not None:
+            ctx.dist[f"{case['stream']}:{conc['action']}:{case.get('step') or 'genuine'}:second:{'delivered' if obs['delivered'].get('B') else 'not-delivered'}:{obs['out_b']}"] += 1
+        if case.get("step") and obs["delivered"].get("A") and obs["out"].startswith("exc") and conc["action"] in LIVE_TEARDOWN:
+            unjudged.setdefault(f"{case['stream']} {obs['out'][4:]} under {conc['action']}", case)
+        if case.get("step") is None and not obs["out"].startswith("ok"):
+            ctx.notes.append(f"{case['stream']} {case['op']}: the genuine control exchange under latency ended with {obs['out']} (the property makes no claim)")
+        for sig, text in _judge_live(case, obs):
+            ctx.violation(f"{case['stream']}/{case['op']}/{case.get('step')}/{conc['action']}/{sig}", text, case)
+    asyncio.set_event_loop(None)
+    for loop in loops.values():
+        loop.close()
+    for what, case in sorted(unjudged.items()):
+        ctx.notes.append(f"concurrent lifecycle, not judged (the application tore the link down itself, only 'never returns normally' is demanded): {what} - the error reply had reached the call, "
+                         f"which then raised a non-library exception; e.g. {case['op']} {case['step']} state={case['state']} code={case['code']} http={case.get('http')} conc={case['conc']}")
+    ctx.sample(cases[0])
+    ctx.sample(cases[len(cases) // 2])
+    ctx.notes.append(f"concurrent lifecycle: {len(cases)} cells (transport x entry point x scripted step x lifecycle action of another task x schedule); in {n_delivered} of them the scripted reply "
+                     "still reached the operation and was judged; oracle: such an operation never returns normally (and, unless the application tore the link down itself, raises no non-library exception)")
+
+
 def replay(ctx, driver, c):
+    if c.get("stream") in LIVE_CELLS:
+        from harness import simnet
+        loop = simnet.VLoop()
+        asyncio.set_event_loop(loop)
+        try:
+            obs = _run_live(loop, c)
+        finally:
+            asyncio.set_event_loop(None)
+            loop.close()
+        return "; ".join(text for _, text in _judge_live(c, obs)) or None
     if c.get("stream") in ("ble", "coap", "ip"):
         from harness import simnet
         loop = simnet.VLoop()
